@@ -46,6 +46,7 @@ def setup():
 def env_for(target):
     e = build.san_env()
     e["FUZZ_TARGET"] = target
+    e["NFUZZ_TAG"] = str(os.getpid())
     e["ASAN_OPTIONS"] += ":detect_stack_use_after_return=0:malloc_context_size=5"
     return e
 
@@ -166,7 +167,35 @@ def seeds_for(rng, target, n):
         base = ["ninja_dyndep_version = 1\nbuild out: dyndep\nbuild out2 | imp: dyndep\n",
                 "ninja_dyndep_version = 1.0\nbuild out | o1 o2: dyndep | in4 in5\n  restat = 1\nbuild out2 | imp: dyndep | x\n",
                 "ninja_dyndep_version = 1\nbuild out: dyndep | other\nbuild out2 | imp: dyndep | out\n"]
-        out = [rng.choice(base).encode() for _ in range(n)]
+        out = [rng.choice(base).encode() for _ in range(n // 4)]
+        # structured: any statement of the fixed graph (bound to the file or not) with implicit outputs and inputs drawn
+        # from every name the graph knows - the file itself, the statements' own outputs and inputs, each other - and new ones
+        names = ["out", "out2", "imp", "other", "x", "dd", "in", "in2", "in3", "new1", "new2", "sub/new3", "build.ninja", "a$ b", "$$x"]
+        while len(out) < n:
+            L = ["ninja_dyndep_version = %s" % rng.choice(("1", "1", "1", "1.0", "1.5", "2", ""))]
+            stmts = [("out", ""), ("out2", "imp")]
+            if rng.random() < 0.15:
+                stmts.append((rng.choice(("other", "x", "nosuch", "imp")), ""))
+            if rng.random() < 0.15:
+                stmts.pop(rng.randrange(len(stmts)))
+            if rng.random() < 0.1 and stmts:
+                stmts.append(rng.choice(stmts))
+            rng.shuffle(stmts)
+            for o, _ in stmts:
+                line = "build " + o
+                io = rng.sample(names, rng.choice((0, 0, 1, 1, 2, 3)))
+                if io:
+                    line += " | " + " ".join(io)
+                line += ": dyndep"
+                ii = rng.sample(names, rng.choice((0, 0, 1, 1, 2, 3)))
+                if ii:
+                    line += " | " + " ".join(ii)
+                if rng.random() < 0.05:
+                    line += " || " + rng.choice(names)
+                L.append(line)
+                if rng.random() < 0.2:
+                    L.append("  restat = %s" % rng.choice(("1", "0", "", "$x")))
+            out.append(("\n".join(L) + rng.choice(("\n", "\n", "", "\r\n"))).encode())
     elif target == "buildlog":
         for k in range(n):
             lines = [b"# ninja log v7"]
@@ -398,7 +427,7 @@ def run(ctx):
         real_binary(ctx, quick, rng, kept)
     finally:
         util.rmtree(keep)
-    for f in __import__("glob").glob("/dev/shm/nfuzz-*"):
+    for f in __import__("glob").glob("/dev/shm/nfuzz-%d-*" % os.getpid()):
         util.rmtree(f)
     ctx.rule = ("per parser: all token strings up to N tokens (N per target in counters), generated valid files + byte/field mutants, "
                 "libFuzzer -runs bounded executions, a sample through the real binary; distinct_nontrivial = exhaustively enumerated "
